@@ -32,6 +32,9 @@ type Options struct {
 	Ctx        context.Context
 	NoHook     bool
 	Vars       map[string]model.Value
+	// PrePrepare calls Prepare once before the context is set (and then again after
+	// SetContext, as documented): an API order a host may well use to validate a script.
+	PrePrepare bool
 	// ObjVars are variables given as engine objects (SetVariable).
 	ObjVars map[string]object.Object
 	// Funcs are extra host functions (AddFunction).
@@ -124,6 +127,13 @@ func New(script string, opt Options) (ev *Evaluator, err error) {
 	ev.E = e
 	e.AddFunction("t", ev.hostT)
 	e.AddFunction("v", ev.hostV)
+	if opt.PrePrepare {
+		if opt.NoOptimize {
+			e.Prepare([]byte{evalfilter.NoOptimize})
+		} else {
+			e.Prepare()
+		}
+	}
 	if opt.Ctx != nil {
 		e.SetContext(opt.Ctx)
 	}
